@@ -32,7 +32,7 @@ man = {
     "hooks": {
         "guard": "verif",
         "enable": "go1.26 build -tags verif -overlay <generated> (done by ./vcheck; accessor files are injected from /verif/overlay/files, named hook points live in /repo behind the tag)",
-        "baseline_off_cmd": "cd /repo && GOFLAGS=-mod=mod GOPROXY=off GOSUMDB=off go test -json -vet=off -count=1 -timeout 25m ./...",
+        "baseline_off_cmd": "cd /repo && GOFLAGS=-mod=mod GOPROXY=off go test -json -vet=off -count=1 -timeout 25m ./...",
         "source_commits": [h.split()[0] for h in hooks],
         "add_only": True,
     },
